@@ -51,7 +51,7 @@ class BeginSystem(PintParsedStatement):
         if not s.startswith("@system"):
             return None
 
-        r = cls._header_re.search(s)
+        r = cls._header_re.fullmatch(s.strip())
 
         if r is None:
             raise ValueError("Invalid System header syntax '%s'" % s)
